@@ -167,6 +167,13 @@ def plan(prop, tier):
             # (for C02-C04 this family only adds further variants of finding F2: snapshot fan-out)
             fams.append(("share2_cross", scen.with_bounds(scen.share_g(), "share", sinks=["probe", "probe"], maxData=1,
                                                          maxTop=4, maxPull=1, allowFail=False, burst=False, cross=True), None))
+        if prop == "C01":
+            # beyond the quantifier (late greeters are listed for merge! only), kept because it is cheap: a shared
+            # source whose upstream greets later than the subscribing call
+            g = scen.share_g()
+            g["nodes"][0]["late"] = True
+            fams.append(("share2_lateup", scen.with_bounds(g, "share", sinks=["probe", "probe"], maxData=1,
+                                                          maxTop=3 if tier == "quick" else 4, maxPull=1, allowFail=True), None))
         if prop in ("C04", "C17"):
             # for_each as a sink of the crate, directly on a puppet source (no tap in between)
             for mode in ("any", "pull"):
